@@ -4,7 +4,7 @@
    and the global silence statement over all schedules; both are checked on every run (check_C10).
    Known finding F11 (SimpleService.stop_announce) is outside the model. *)
 From PS Require Import Lib.Base Generated.Consts Model.SdTypes Model.Config Model.Session Model.StackTypes Model.Stack
-  Model.StackIO Proofs.StackOpsProofs Proofs.WorldInv.
+  Model.StackIO Proofs.StackOpsProofs Proofs.WorldInv Proofs.WorldTime.
 
 Theorem C10_initial_delay_in_window : forall t w tk inst,
   get_task t w = Some tk -> tk_done tk = false -> tk_must_cancel tk = false -> tk_kind tk = TOffer inst -> tk_pc tk = 0 ->
@@ -46,7 +46,17 @@ Proof. intros w Hg t tid H. exact (g_sleep _ _ Hg t tid H). Qed.
 Theorem C10_in_every_reachable_state : forall s sc, d_scenario s = Some sc -> G (fst (run_scenario sc)).
 Proof. exact G_reachable. Qed.
 
+(* schedule: a sleeping task's wake-up is armed at now + delay and (C09/WorldTime) runs exactly then: together with the
+   transitions above the offers of an undisturbed instance are queued at ts + d0, then after base * 2^i, then every period *)
+Theorem C10_sleep_arms_exactly_the_delay : forall t k d pc i w, (d =? 0) = false ->
+  timers (task_sleep t k d pc i w) = timers w ++ [(now w + d, next_id w, HSleepDone t)].
+Proof. exact task_sleep_arms_deadline. Qed.
+Theorem C10_wakeups_run_exactly_at_their_deadline : forall sc, Tinv (fst (run_scenario sc)).
+Proof. exact reachable_on_time. Qed.
+
 Print Assumptions C10_initial_delay_in_window.
+Print Assumptions C10_sleep_arms_exactly_the_delay.
+Print Assumptions C10_wakeups_run_exactly_at_their_deadline.
 Print Assumptions C10_sleeping_task_owns_its_wakeup.
 Print Assumptions C10_in_every_reachable_state.
 Print Assumptions C10_first_offer.
